@@ -72,19 +72,22 @@ Check C19_oracle_sound : forall c : Corr.EngineCase.case,
   Corr.EngineCase.valid_case c = true -> Corr.EngineCase.corr_b c = true -> Corr.C19.prop_b c = true.
 
 (* the definitions the statements rest on, pinned by evaluation *)
-Check eq_refl : filter_match (FExchanges [1; 2]) 0 (mkInst 2 5 6 [] None None) = true.
-Check eq_refl : filter_match (FExchanges [1; 2]) 2 (mkInst 0 5 6 [] None None) = false.
-Check eq_refl : filter_match (FInstruments [3]) 3 (mkInst 0 5 6 [] None None) = true.
-Check eq_refl : filter_match (FInstruments [0]) 3 (mkInst 0 5 6 [] None None) = false.
-Check eq_refl : filter_match (FUnderlyings [(5, 6)]) 0 (mkInst 0 5 6 [] None None) = true.
-Check eq_refl : filter_match (FUnderlyings [(6, 5)]) 0 (mkInst 0 5 6 [] None None) = false.
-Check eq_refl : filter_match FNone 9 (mkInst 0 5 6 [] None None) = true.
+Check eq_refl : filter_match (FExchanges [1; 2]) 0 (mkInst 2 5 6 [] None (mkMD (mkL1 0 None None) None)) = true.
+Check eq_refl : filter_match (FExchanges [1; 2]) 2 (mkInst 0 5 6 [] None (mkMD (mkL1 0 None None) None)) = false.
+Check eq_refl : filter_match (FInstruments [3]) 3 (mkInst 0 5 6 [] None (mkMD (mkL1 0 None None) None)) = true.
+Check eq_refl : filter_match (FInstruments [0]) 3 (mkInst 0 5 6 [] None (mkMD (mkL1 0 None None) None)) = false.
+Check eq_refl : filter_match (FUnderlyings [(5, 6)]) 0 (mkInst 0 5 6 [] None (mkMD (mkL1 0 None None) None)) = true.
+Check eq_refl : filter_match (FUnderlyings [(6, 5)]) 0 (mkInst 0 5 6 [] None (mkMD (mkL1 0 None None) None)) = false.
+Check eq_refl : filter_match FNone 9 (mkInst 0 5 6 [] None (mkMD (mkL1 0 None None) None)) = true.
 Check eq_refl : not_cif (mkOrder (mkKey 0 0 0 1) Buy 1 1 Limit GTD (CIF None)) = false.
 Check eq_refl : not_cif (mkOrder (mkKey 0 0 0 1) Buy 1 1 Limit GTD OIF) = true.
 Check eq_refl : cancel_of_order (mkOrder (mkKey 0 0 0 1) Buy 1 1 Limit GTD (OOpen (mkMeta 7 1 0))) = mkCReq (mkKey 0 0 0 1) (Some 7).
 Check eq_refl : cancel_of_order (mkOrder (mkKey 0 0 0 1) Buy 1 1 Limit GTD OIF) = mkCReq (mkKey 0 0 0 1) None.
 Check eq_refl : flip_side Buy = Sell.
 Check eq_refl : flip_side Sell = Buy.
-Check eq_refl : closable (mkInst 0 5 6 [] (Some (mkPos 0 Buy 1)) None) = false.
-Check eq_refl : closable (mkInst 0 5 6 [] (Some (mkPos 0 Buy 1)) (Some (1, 2)%Z)) = true.
+Check eq_refl : closable (mkInst 0 5 6 [] (Some (mkPos 0 Buy 1)) (mkMD (mkL1 0 (Some (1, 1)%Z) None) None)) = false.
+Check eq_refl : closable (mkInst 0 5 6 [] (Some (mkPos 0 Buy 1)) (mkMD (mkL1 0 None None) (Some (1, 2)%Z))) = true.
+Check eq_refl : md_price (mkMD (mkL1 0 (Some (48, 3)%Z) (Some (52, 1)%Z)) (Some (3, 99)%Z)) = Some 51%Z.
+Check eq_refl : md_price (mkMD (mkL1 0 (Some (48, 3)%Z) None) (Some (3, 99)%Z)) = Some 99%Z.
+Check eq_refl : data_l1 (mkMD (mkL1 5 None None) None) 5 (mkL1 9 (Some (1, 1)%Z) None) = mkMD (mkL1 5 None None) None.
 Check eq_refl : sorted_keys [(1, mkOrder (mkKey 0 0 0 1) Buy 1 1 Limit GTD OIF); (1, mkOrder (mkKey 0 0 0 1) Buy 1 1 Limit GTD OIF)] = false.
